@@ -58,6 +58,35 @@ def run(ctx):
               lambda P_: _psk_value(P_), floor=1)
     ctx.check('GUARD', 'injected PSK requires a non-application resumption id in the Welcome',
               lambda P_: guard(P_, 'Group::psk_secret', '==', r'key_id<Resumption>\.0\.usage', r'.', 'UnexpectedPskId'), floor=1)
+    def injected_never_falls_back(P_):
+        """when a resumption PSK is injected (additional_psk = Some) the PSK secret is never computed from the PSK store:
+        a Welcome that lists no PSK, or another first PSK, must be rejected, not resolved through the store"""
+        fn = P_.fn('Group::psk_secret')
+        body = P_.body(fn)
+        o = Origins(body)
+        r = Res()
+        res_calls = [bi for bi, t in body.calls_named(r'PskResolver::resolve_to_secret$')]
+        if not res_calls:
+            return r.bad('call-missing', 'psk_secret no longer has a store-based branch')
+        found = False
+        for bi, b in enumerate(body.B):
+            t = b['term']
+            if t['k'] != 'switch':
+                continue
+            for st in b['st']:
+                if st['rv']['k'] == 'discr' and re.search(r'additional_psk', o.place_str(st['rv']['pl'])):
+                    found = True
+                    some_t = [tg for v, tg in t['ts'] if v == '1'] or [t['o']]
+                    r.site('psk_secret @%s match on additional_psk' % b['ln'])
+                    reach = body.reach(some_t)
+                    if any(c in reach for c in res_calls):
+                        r.bad('fallback', 'with an injected resumption PSK, psk_secret can still reach the store-based resolver: a Welcome that does not '
+                              'reference the old group\'s resumption PSK first is then accepted with whatever the store resolves (the all-zero secret '
+                              'for an empty list)', where=[b['ln']])
+        if not found:
+            r.bad('branch-missing', 'psk_secret no longer branches on the injected PSK')
+        return r
+    ctx.check('GUARD', 'an injected resumption PSK never falls back to the PSK store', injected_never_falls_back, floor=1)
     C = 'resumption::check_that_subgroup_is_a_subset'
     ctx.check('GUARD', 'membership: subset', lambda P_: guard(P_, C, 'not', r'is_subset\(', None, 'NotASubgroup'), floor=1)
     ctx.check('GUARD', 're-init membership: same number of members',
